@@ -129,6 +129,20 @@ def run(ctx):
         if m:
             what += " (minimised to %d nodes: evaluator %s, real %s)" % (m["nodes"], m["expected"], m["real"])
         ctx.violation(key, what, evaldiff.replay_of(c))
+    # ---- the compiler-correctness fragment (Properties_C02b.v): Src/Compile.v must equal the real
+    # emitter's code instruction by instruction, VM/ValueVM.v must run like the real VM, and (theorem)
+    # ValueVM on compiled code equals the evaluator
+    try:
+        from checks.parts import compiletie
+        ct = compiletie.run_compiletie(ctx, 1600 if ctx.tier == "quick" else 12000, ctx.seed, level=2)
+        if ct:
+            for d in ct["run_diffs"][:3]:
+                if d.get("valuevm") == d.get("evaluator"):
+                    ctx.violation("compiletie:real-differs-from-evaluator:case%s" % d.get("case"),
+                                  "fragment program: the real VM gives %s, the evaluator (and the value-level VM model) %s" % (
+                                      d.get("real"), d.get("evaluator")), d)
+    except Exception as ex:        # the fragment tie is additional to the differential above
+        ctx.correspondence_broken("compiletie-crashed", repr(ex)[:500])
     ctx.assumptions.extend(NOT_MODELLED)
     ctx.coverage["disagreeing_cases"] = len(r["c02"])
     ctx.coverage["corpus_programs"] = ncorpus
